@@ -525,3 +525,42 @@ def count_parameter_as_python_number(prog: Program, rep, RID: str, cname: str, a
         else:
             rep.violation(RID, key, f"`self.{attr} = {norm(v)[:60]}` keeps the caller's number in its own type: {why}", f.loc(st))
     return n
+
+
+def solver_members_exist(prog: Program, rep, RID: str, classes=None) -> int:
+    """Every attribute read through `self.solver.<name>` names a member of SolverWrapper (a method, a class attribute or an instance attribute some method
+    of SolverWrapper stores): an unknown name raises AttributeError at run time - typically on an error path no test takes
+    (`self.solver.logger.error(...)` in the 'model not solved' branch)."""
+    sw = prog.cls("SolverWrapper")
+    members = set(sw.methods) | set(sw.class_attrs)
+    for m in sw.methods.values():
+        for n in ast.walk(m.node):
+            if isinstance(n, ast.Attribute) and isinstance(n.ctx, ast.Store) and isinstance(n.value, ast.Name) and n.value.id == "self":
+                members.add(n.attr)
+    if len(members) < 20:
+        raise AnalysisError("SolverWrapper: member table implausibly small")
+    n_sites = 0
+    for cls in prog.all_classes():
+        if classes is not None and cls.name not in classes:
+            continue
+        owns = any(isinstance(st, ast.Assign) and any(norm(t) == "self.solver" for t in st.targets) and
+                   isinstance(st.value, ast.Call) and (dotted(st.value.func) or "").endswith("SolverWrapper")
+                   for m in cls.methods.values() for st in ast.walk(m.node))
+        if not owns and not any(b.name in ("AbstractPathModelDAG", "AbstractWalkModelDiGraph") for b in prog.mro(cls)):
+            continue
+        for m in cls.methods.values():
+            bad = [n for n in ast.walk(m.node) if isinstance(n, ast.Attribute) and norm(n.value) == "self.solver" and n.attr not in members]
+            reads = [n for n in ast.walk(m.node) if isinstance(n, ast.Attribute) and norm(n.value) == "self.solver"]
+            if not reads:
+                continue
+            n_sites += 1
+            key = f"{cls.name}.{m.name}:solver-members"
+            if bad:
+                rep.violation(RID, key, f"`self.solver.{bad[0].attr}` is read in {cls.name}.{m.name}, but SolverWrapper has no member `{bad[0].attr}`: the statement raises "
+                              "AttributeError when it is reached (an error path: the caller gets AttributeError instead of the intended exception / log line)", m.loc(bad[0]),
+                              self_contained=True)
+            else:
+                rep.ok(RID, key, f"{len(reads)} read(s) through self.solver name members of SolverWrapper", m.loc())
+    if n_sites == 0:
+        raise AnalysisError("no read through self.solver found")
+    return n_sites
